@@ -256,11 +256,19 @@ func (w *World) execRaw(o Op) (kind int64, payload []int64) {
 		w.V = append(w.V, nv)
 	case "At":
 		s := v.At(int(o.I))
-		payload = append(payload, int64(s.GetFloat64()))
+		payload = append(payload, pv(s))
 	case "SetAt":
 		v.At(int(o.I)).SetFloat64(float64(o.X))
+	case "SetVar":
+		// the element becomes an independent variable at the point X (value X, gradient (1)): for the
+		// Real element types only; its reading under pv is X + VARW
+		s := v.At(int(o.I))
+		s.SetFloat64(float64(o.X))
+		if err := s.(interface{ SetVariable(int, int, int) error }).SetVariable(0, 1, 1); err != nil {
+			kind = K_ERR
+		}
 	case "ConstAt":
-		payload = append(payload, int64(v.ConstAt(int(o.I)).GetFloat64()))
+		payload = append(payload, pv(v.ConstAt(int(o.I))))
 	case "SetV":
 		v.Set(w.operand(o.U, o.L))
 	case "SETV":
@@ -307,7 +315,7 @@ func (w *World) execRaw(o Op) (kind int64, payload []int64) {
 	case "Iterate":
 		g := 0
 		for it := v.ConstIterator(); it.Ok(); it.Next() {
-			payload = append(payload, int64(it.Index()), int64(it.GetConst().GetFloat64()))
+			payload = append(payload, int64(it.Index()), pv(it.GetConst()))
 			if g++; g > 10000 {
 				payload = append(payload, C_LOOP)
 				break
@@ -316,14 +324,14 @@ func (w *World) execRaw(o Op) (kind int64, payload []int64) {
 	case "IterPart":
 		it := v.ConstIterator()
 		for c := int64(0); c < o.I && it.Ok(); c++ {
-			payload = append(payload, int64(it.Index()), int64(it.GetConst().GetFloat64()))
+			payload = append(payload, int64(it.Index()), pv(it.GetConst()))
 			it.Next()
 		}
 	case "IterFrom":
 		g := 0
 		if o.B { // the non-const twin IteratorFrom(i) + Get(): the same ITERATOR_FROM at HEAD, the same model operation
 			for it := v.IteratorFrom(int(o.I)); it.Ok(); it.Next() {
-				payload = append(payload, int64(it.Index()), int64(it.Get().GetFloat64()))
+				payload = append(payload, int64(it.Index()), pv(it.Get()))
 				if g++; g > 10000 {
 					payload = append(payload, C_LOOP)
 					break
@@ -332,7 +340,7 @@ func (w *World) execRaw(o Op) (kind int64, payload []int64) {
 			break
 		}
 		for it := v.ConstIteratorFrom(int(o.I)); it.Ok(); it.Next() {
-			payload = append(payload, int64(it.Index()), int64(it.GetConst().GetFloat64()))
+			payload = append(payload, int64(it.Index()), pv(it.GetConst()))
 			if g++; g > 10000 {
 				payload = append(payload, C_LOOP)
 				break
@@ -345,9 +353,9 @@ func (w *World) execRaw(o Op) (kind int64, payload []int64) {
 		for it := v.JointIterator(w.operand(o.U, o.L)); it.Ok(); it.Next() {
 			a, b := it.Get()
 			if a == nil || reflect.ValueOf(a).Kind() == reflect.Ptr && reflect.ValueOf(a).IsNil() {
-				payload = append(payload, int64(it.Index()), 0, 0, int64(b.GetFloat64()))
+				payload = append(payload, int64(it.Index()), 0, 0, pv(b))
 			} else {
-				payload = append(payload, int64(it.Index()), 1, int64(a.GetFloat64()), int64(b.GetFloat64()))
+				payload = append(payload, int64(it.Index()), 1, pv(a), pv(b))
 			}
 			if g++; g > 10000 {
 				payload = append(payload, C_LOOP)
@@ -362,12 +370,12 @@ func (w *World) execRaw(o Op) (kind int64, payload []int64) {
 		for it.MethodByName("Ok").Call(nil)[0].Bool() {
 			idx := it.MethodByName("Index").Call(nil)[0].Int()
 			r := it.MethodByName("Get").Call(nil)
-			s2 := int64(r[1].Interface().(ad.ConstScalar).GetFloat64())
-			s3 := int64(r[2].Interface().(ad.ConstScalar).GetFloat64())
+			s2 := pv(r[1].Interface().(ad.ConstScalar))
+			s3 := pv(r[2].Interface().(ad.ConstScalar))
 			if r[0].IsNil() || r[0].Elem().Kind() == reflect.Ptr && r[0].Elem().IsNil() {
 				payload = append(payload, idx, 0, 0, s2, s3)
 			} else {
-				payload = append(payload, idx, 1, int64(r[0].Interface().(ad.Scalar).GetFloat64()), s2, s3)
+				payload = append(payload, idx, 1, pv(r[0].Interface().(ad.Scalar)), s2, s3)
 			}
 			it.MethodByName("Next").Call(nil)
 			if g++; g > 10000 {
@@ -397,13 +405,28 @@ type VecObs struct {
 	Flat    []int64
 }
 
+// pv: the reading of a scalar in the element carrier Z of the model.  The model's "zero" must be the
+// library's nullScalar(): for the Real types a scalar with value 0 and a non-zero derivative is NOT null
+// (vector_sparse_real64.go skip() / scalar_real64.go nullScalar()).  Values in the histories are bounded by
+// maxAbs = 100 and the only gradients are those of SetVar (one variable, derivative 0 or 1), so
+// value + VARW * derivative[0] is injective on the reachable scalars and 0 exactly on the null ones.
+const VARW = 1000
+
+func pv(s ad.ConstScalar) int64 {
+	x := int64(s.GetFloat64())
+	if s.GetOrder() >= 1 && s.GetN() >= 1 {
+		x += VARW * int64(s.GetDerivative(0))
+	}
+	return x
+}
+
 func readAt(v ad.Vector, i int) (x int64, ok bool) {
 	defer func() {
 		if r := recover(); r != nil {
 			x, ok = C_PANIC, false
 		}
 	}()
-	return int64(v.ConstAt(i).GetFloat64()), true
+	return pv(v.ConstAt(i)), true
 }
 func cloneIter(v ad.Vector) (seq []int64, ok bool) {
 	seq = []int64{}
@@ -415,7 +438,7 @@ func cloneIter(v ad.Vector) (seq []int64, ok bool) {
 	c := v.CloneVector()
 	g := 0
 	for it := c.ConstIterator(); it.Ok(); it.Next() {
-		seq = append(seq, int64(it.Index()), int64(it.GetConst().GetFloat64()))
+		seq = append(seq, int64(it.Index()), pv(it.GetConst()))
 		if g++; g > 10000 {
 			return []int64{C_LOOP}, false
 		}
@@ -426,6 +449,7 @@ func cloneIter(v ad.Vector) (seq []int64, ok bool) {
 func observeVec(v ad.Vector) VecObs {
 	var o VecObs
 	st := ad.VerifC11Dump(v)
+	d0 := ad.VerifC11Deriv0(v)
 	o.N = v.Dim()
 	o.ReadOK = true
 	f := []int64{int64(o.N), SEP}
@@ -442,7 +466,7 @@ func observeVec(v ad.Vector) VecObs {
 		o.Keys = append(o.Keys, int64(e.Key))
 		o.Nil = append(o.Nil, e.Nil)
 		o.Cells = append(o.Cells, e.Cell)
-		x := int64(e.Value)
+		x := int64(e.Value) + VARW*int64(d0[e.Key])
 		if e.Nil {
 			x = C_NIL
 		}
@@ -513,6 +537,8 @@ func coqOp(o Op) string {
 		return fmt.Sprintf("%s %d %s", o.Op, o.T, Z(o.I))
 	case "SetAt":
 		return fmt.Sprintf("SetAt %d %s %s", o.T, Z(o.I), Z(o.X))
+	case "SetVar": // in the carrier Z of the model: the write of the non-null element X + VARW (see pv)
+		return fmt.Sprintf("SetAt %d %s %s", o.T, Z(o.I), Z(o.X+VARW))
 	case "SetV":
 		return fmt.Sprintf("SetV %d %s", o.T, coqOperand(o.U, o.L))
 	case "SETV", "AppendV":
@@ -551,7 +577,7 @@ func coqCase(c Case) string {
 
 const hdr = "From Coq Require Import ZArith List Bool. Import ListNotations.\nFrom ADV Require Import C11.Model C11.Corr C11.Corr2.\nOpen Scope Z_scope.\n"
 
-const rule = "random histories (<= 40 ops, <= 6 vectors of dim 0..12 growing by Append, values in -8..8, element type drawn from all nine sparse types) over New/At/SetAt(incl. zeros)/ConstAt/Set(sparse|dense)/SET/Reset/ReverseOrder/Swap/Permute/Sort/Slice/AppendVector(sparse|dense)/AppendScalar/Map/MapSet/Reduce/ConstIterator(full|partial)/ConstIteratorFrom(i) (two of three aimed at a pending zero: start q <= p, p a stored zero or value-less index key and the first index key at/after q; compound = create a pending zero by SetAt(0) | At() | Reset | Map x*0 | Set(dense with zeros), then start there)/Clone/JointIterator/JOINT3_ITERATOR; 1 in 5 histories also draws malformed ops (out-of-range indices, wrong-length or non-permutation pi, Swap/Slice out of range, Map with f(0)!=0, dimension mismatch); a case is non-trivial iff it contains >= 8 mutating ops, >= 1 index-rebuilding op (Permute/Sort/ReverseOrder), >= 1 sharing op (Slice/AppendVector) and some vector held a stored zero or a value-less index key at some step; distinct = distinct (type, op list)"
+const rule = "random histories (<= 40 ops, <= 6 vectors of dim 0..12 growing by Append, values in -8..8, element type drawn from all nine sparse types) over New/At/SetAt(incl. zeros)/ConstAt/Set(sparse|dense)/SET/Reset/ReverseOrder/Swap/Permute/Sort/Slice/AppendVector(sparse|dense)/AppendScalar/Map/MapSet/Reduce/ConstIterator(full|partial)/ConstIteratorFrom(i) (two of three aimed at a pending zero: start q <= p, p a stored zero or value-less index key and the first index key at/after q; compound = create a pending zero by SetAt(0) | At() | Reset | Map x*0 | Set(dense with zeros), then start there)/Clone/JointIterator/JOINT3_ITERATOR; 1 in 5 histories also draws malformed ops (out-of-range indices, wrong-length or non-permutation pi, Swap/Slice out of range, Map with f(0)!=0, dimension mismatch); a case is non-trivial iff it contains >= 8 mutating ops, >= 1 index-rebuilding op (Permute/Sort/ReverseOrder), >= 1 sharing op (Slice/AppendVector) and some vector held a stored zero or a value-less index key at some step; directed stream of round 7 (N/6 short histories, Real64 / Real32 five of eight): SetVar (an element becomes an independent variable, two of three at the point 0: value 0 with derivative 1 is not null; read as value + 1000 * derivative[0]; no value-computing op in these histories) and the compound SET on an EMPTY receiver (new, or emptied by Reset + iteration) from t, At()/SetAt at a fresh position of one of the two, iteration of the OTHER, roles exchanged; distinct = distinct (type, op list)"
 
 func readCorpus(path string) []Case {
 	var cs []Case
@@ -639,6 +665,20 @@ func main() {
 		w.Count("stream:small")
 	}
 	smallMode = false
+	// directed stream (round 7): variables at the point 0 in the Real vectors (value 0, derivative 1: not null,
+	// must be visited and kept by skip()) and SET on an empty receiver followed by At() at a fresh position of
+	// one of the two vectors and an iteration of the other (see varMode / case 27 in gen.go)
+	dirMode = true
+	dirTypes := []string{"real64", "float64", "real32", "int", "real64", "float64", "real32", "float32", "real64", "int8", "real32", "int16", "real64", "int32", "real32", "int64"}
+	for k := 0; k < o.N/6 && hungTotal < maxHung; k++ {
+		tn := dirTypes[k%len(dirTypes)]
+		varMode = tn == "real64" || tn == "real32"
+		smallMode = k%2 == 0
+		c, st := genCase(rng.Split(), tn, false, w)
+		w.Add(coqCase(c), c, "dir:"+tn+fmt.Sprint(c.Ops), st.mut >= 4 && (st.vars >= 1 || st.setEmpty >= 1))
+		w.Count("stream:directed-r7")
+	}
+	dirMode, varMode, smallMode = false, false, false
 	if err := w.Flush(); err != nil {
 		Die("%v", err)
 	}
